@@ -13,7 +13,6 @@ CONSTANTS
   Extra = {}
   CloseKinds = {}
   Deviations = {}
-  CloseSet = {"local"}
-  Scenario = "conn"
+  Tier = "quick"
 SPECIFICATION GWSpec
 INVARIANTS Emit NoStrandedWithoutDeviation
